@@ -309,6 +309,7 @@ def main():
     r.stream("c09-py-lab", stream="c09-py-lab", n=10 if quick else 50, seed=c.seed + 3, veneers=65, tier=c.tier)
     r.stream("c09-py-lab-alias", stream="c09-py-lab", n=5 if quick else 20, seed=c.seed + 9, veneers=40,
              switches="+def.scalar,+def.collection", formats="jsonschema,openapi", tier=c.tier)
+    r.stream("c09-py-lab-deep", stream="c09-py-lab", n=6 if quick else 24, seed=c.seed + 13, deep=1, tier=c.tier)
     r.report()
 
     st = r.stats
